@@ -52,6 +52,8 @@ class Engine(EngineBase, ExprMixin, CompMixin, CallMixin, FuncMixin, StmtMixin):
             if a.arg not in ptypes:
                 raise EngineError(f"parameter {a.arg!r} of {target} has no usable type")
             self.input_vars[a.arg] = fresh(ptypes[a.arg], a.arg)
+        for key, ts in con.globals_in.items():
+            self.input_vars["$g:" + key] = fresh(self.ct.parse(ts), "g")
         self.fn_info[target] = {"hash": extract.source_hash(fdef), "file": extract.module_path(module),
                                 "line": fdef.lineno, "mode": con.mode}
 
@@ -67,6 +69,7 @@ class Engine(EngineBase, ExprMixin, CompMixin, CallMixin, FuncMixin, StmtMixin):
         if len(parts) >= 2 and parts[-2] in self.ct.classes:
             cls = parts[-2]
         self.cur_target, self.cur_prop = target, con.prop
+        self.cur_raises = dict(con.raises)
         self.obligations = []
         self.npaths = 0
         start = len(self.obligations)
@@ -91,6 +94,12 @@ class Engine(EngineBase, ExprMixin, CompMixin, CallMixin, FuncMixin, StmtMixin):
             v = fresh(self.ct.parse(ts), g)
             locs[g] = v
             self.input_vars[g] = v
+        for key, ts in con.globals_in.items():
+            # a module global the function reads: an input (same constants as ExprMixin.module_global creates)
+            self.global_types[key] = ts
+            t_ = self.ct.parse(ts)
+            self.input_vars["$g:" + key] = V(t_, [z3.Const(f"G_{key}{('_' + s_) if s_ else ''}", so_)
+                                                  for s_, so_ in comps(t_)])
         st.frames.append(Frame(module, cls, target, fdef, locs))
         for v in list(locs.values()):
             st = self.assume_wf(st, v)
